@@ -68,19 +68,57 @@ def gen(rng, tier):
             for idx in range(csize + dsize):
                 for x in (1, 0x80, 0xff):
                     yield case(rng, caddr, ckind, 0, dsize, bs, [], [], [(0, 3, 0, 0), (6, 4 + idx, x, 0), (2, 0, 0, 0)])
+    # histories of two full stores whose images differ but have the SAME checksum (explicit images, op 7): trivial sum - a
+    # permutation; CRC-16/ARC and the 32-bit sum - searched collisions; then validate and fetch: the second image must be there
+    def crc16(bs, c=0):
+        for b in bs:
+            c ^= b
+            for _ in range(8):
+                c = (c >> 1) ^ 0xA001 if c & 1 else c >> 1
+        return c
+    def sum32(bs, s=0):
+        for b in bs:
+            s = (s * 31 + b + 1) & 0xffffffff
+        return s
+    def val(bs):
+        return sum(b << (8 * i) for i, b in enumerate(bs))
+    for dsize in (2, 3, 4, 8):
+        for _ in range(6 if big else 2):
+            a = [rng.randrange(256) for _ in range(dsize)]
+            pairs = []
+            b = a[1:] + a[:1]
+            if b != a:
+                pairs.append((0, a, b))
+            # 32-bit sum: (d0 + 1, d1 - 31) keeps s*31*31 + d0*31 + d1
+            if a[0] < 255 and a[1] >= 31:
+                pairs.append((2, a, [a[0] + 1, a[1] - 31] + a[2:]))
+            # CRC: search a second image with the same remainder (3 free octets suffice)
+            if dsize >= 3:
+                want = crc16(a)
+                for x in range(1 << 24):
+                    c = [x & 255, (x >> 8) & 255, (x >> 16) & 255] + a[3:]
+                    if c != a and crc16(c) == want:
+                        pairs.append((1, a, c)); break
+            for ckind, x, y in pairs:
+                assert (crc16(x) == crc16(y) if ckind == 1 else sum32(x) == sum32(y) if ckind == 2 else sum(x) == sum(y)) and x != y
+                csize = 4 if ckind == 2 else 2
+                for bs in (-1, 0, 3):
+                    ops = [(7, val(x), 0, 0), (2, 0, 0, 0), (3, 0, 0, 0), (7, val(y), 0, 0), (2, 0, 0, 0), (3, 0, 0, 0), (7, val(y), 0, 0), (3, 0, 0, 0), (7, val(x), 0, 0), (3, 0, 0, 0)]
+                    yield case(rng, rng.choice([4, 7, 4096]), ckind, 0, dsize, bs, [], [], ops)
     # random histories
     for _ in range(2000 if big else 200):
         dsize = rng.randrange(1, 30); ckind = rng.randrange(3); csize = 4 if ckind == 2 else 2
         caddr = rng.choice([4, 7, 4096, 2**32 - (csize + dsize) - 4]); bs = rng.choice([-1, 0, 1, 2, 3, dsize - 1, dsize, dsize + 1])
         ops = []
         for _ in range(rng.randrange(1, 12)):
-            c = rng.choice([0, 1, 1, 2, 3, 4, 5, 6])
+            c = rng.choice([0, 1, 1, 2, 3, 4, 5, 6, 7])
             if c == 0: ops.append((0, rng.randrange(256), 0, 0))
             elif c == 1:
                 o = rng.randrange(dsize + 1); ops.append((1, rng.randrange(256), o, rng.randrange(0, dsize - o + 2)))
             elif c == 4:
                 o = rng.randrange(dsize + 1); ops.append((4, o, rng.randrange(0, dsize - o + 2), 0))
             elif c == 5: ops.append((5, rng.randrange(256), 0, 0))
+            elif c == 7: ops.append((7, rng.randrange(2**64), 0, 0))
             elif c == 6: ops.append((6, 4 + rng.randrange(csize + dsize), rng.randrange(1, 256), 0))
             else: ops.append((c, 0, 0, 0))
         yield case(rng, caddr, ckind, rng.randrange(65536), dsize, bs, [], [], ops)
